@@ -49,6 +49,11 @@ ITEMS = [
     ('-existing-file -rel-home data.txt', ['<HOME>/data.txt']),
     ("'@[S]@'", ['@[S]@']),
     ('é', ['é']),
+    # words that only begin / end with a reserved character; quoted words that are options at this position
+    (')x', [')x']),
+    ('x) ):', ['x)', '):']),
+    ("'-existing-file' data.txt", ['-existing-file', 'data.txt']),
+    ('"-existing-path"', ['-existing-path']),
 ]
 LAST_ITEMS = [
     (":> rest of  line 'q' @[S]@ ", ["rest of  line 'q' s v"]),
